@@ -526,6 +526,46 @@ def model_versions(name, texts):
     return [[centry(e) for e in walk_bytes(name, t.encode("utf-8"))] for t in texts]
 
 
+JUNK_MARK = "JUNKJUNK"
+JUNK_LINE = {"properties": JUNK_MARK + " line\n", "dtd": "<!ENTITY " + JUNK_MARK + ">\n",
+             "ini": JUNK_MARK + "\n", "inc": JUNK_MARK + "\n", "ftl": JUNK_MARK + "\n",
+             "android": '  <plurals name="' + JUNK_MARK + '"></plurals>\n'}
+
+
+def mutate(rng, text, fmt):
+    """leave the property's domain: duplicate / delete lines, junk, missing final newline"""
+    lines = text.splitlines(True)
+    for _ in range(rng.randint(1, 3)):
+        r = rng.random()
+        if r < 0.3 and lines:
+            lines.insert(rng.randint(0, len(lines)), rng.choice(lines))     # duplicate a line
+        elif r < 0.5 and lines:
+            del lines[rng.randrange(len(lines))]
+        elif r < 0.7:
+            lines.insert(rng.randint(0, len(lines)), JUNK_LINE[fmt])
+        elif r < 0.85 and lines:
+            i = rng.randrange(len(lines))
+            if lines[i]:
+                j = rng.randrange(len(lines[i]))
+                lines[i] = lines[i][:j] + lines[i][j + 1:]
+        else:
+            lines.insert(rng.randint(0, len(lines)), rng.choice(["\n", "  \n", "\n\n"]))
+    text = "".join(lines)
+    if rng.random() < 0.2:
+        text = text.rstrip("\n")
+    return text
+
+
+SMALL_LINES = ["a=1\n", "a=2\n", "b=1\n", "# c\n", "\n", "# d\n\n"]
+
+
+def small_texts(maxlines):
+    import itertools
+    for n in range(maxlines + 1):
+        for combo in itertools.product(SMALL_LINES, repeat=n):
+            yield "".join(combo)
+
+
 UNSUPPORTED = ["foo.txt", "strings.xm", "a.properties.bak", "foo.ftlx", "README", "x.inc.in",
                "foo.json", "dtd", "", "a.ini~"]
 SUPPORTED_ODD = ["strings-foo.xml", "a/strings.xml", "foo.pot", "foo.po", "x.dtd", "mystrings.xml",
@@ -570,6 +610,37 @@ def run(chk, runner_ok):
     if model:
         chk.correspond("CHANNELS", cases, impl, model.call(reqs))
         chk.correspond("CHANNELS-entries", ecases, eimpl, model.call(ereqs))
+    # ---- CHANNELS-wild: outside the property's domain, model against implementation only
+    wcases, wimpl, wreqs = [], [], []
+    for i in range(chk.n(800, 8000)):
+        case = gen_case(rng)
+        fmt = case["fmt"]
+        name = FNAME[fmt]
+        texts = [mutate(rng, t, fmt) if rng.random() < 0.7 else t for t in case["texts"]]
+        res, _ = impl_merge(name, texts)
+        chk.count(("chw", fmt, texts))
+        wcases.append({"fmt": fmt, "versions": texts})
+        wimpl.append(res)
+        wreqs.append((0, [s2l(name), model_versions(name, texts)]))
+    # ---- CHANNELS-small: every pair of .properties files of up to N lines of a small alphabet
+    a, b = chk.n((2, 2), (3, 2))
+    olds = list(small_texts(b))
+    scases, simpl, sreqs = [], [], []
+    name = FNAME["properties"]
+    parsed = {}
+    for new in small_texts(a):
+        for old in olds:
+            res, _ = impl_merge(name, [new, old])
+            chk.count(("chs", new, old))
+            scases.append([new, old])
+            simpl.append(res)
+            for t in (new, old):
+                if t not in parsed:
+                    parsed[t] = model_versions(name, [t])[0]
+            sreqs.append((0, [s2l(name), [parsed[new], parsed[old]]]))
+    if model:
+        chk.correspond("CHANNELS-wild", wcases, wimpl, model.call(wreqs))
+        chk.correspond("CHANNELS-small", scases, simpl, model.call(sreqs))
     # ---- unsupported names / parser dispatch ------------------------------------
     names = list(UNSUPPORTED) + list(SUPPORTED_ODD) + [FNAME[f] for f in FORMATS]
     alpha = ["strings", ".xml", ".dtd", ".properties", ".ini", ".inc", ".ftl", ".po", "t", "x",
@@ -627,6 +698,11 @@ def impl_entries(name, texts, keep):
 WITNESSES = [
     # (signature, format, version texts)
     ("ini-section-name-equals-key", "ini", ["[a]\na=1\n"]),
+    ("merge-ws-fold-loses-blank-line", "android",
+     ['<?xml version="1.0" encoding="utf-8"?>\n<resources>\n  <string name="a">A</string>\n</resources>\n',
+      '<?xml version="1.0" encoding="utf-8"?>\n<resources>\n  <!-- note -->\n\n</resources>\n']),
+    ("merge-ws-fold-loses-blank-line", "properties",
+     ["a = 1\n   b = 2\n", "a = 1\n# note\n\n"]),
 ]
 
 
@@ -639,6 +715,15 @@ def run_witnesses(chk):
                          {"output": text, "expected": texts[0],
                           "why": "IniSection.key is the section name: `[a]` and `a=1` share the "
                                  "dict key 'a' in parse_resource, the section is dropped"})
+        if sig == "merge-ws-fold-loses-blank-line" and text is not None:
+            entries = walk_bytes(FNAME[fmt], text.encode("utf-8"))
+            standalone = [e for e in entries if ckind(e) == K_COMMENT]
+            if not standalone:
+                chk.fail(sig, {"fmt": fmt, "versions": texts},
+                         {"output": text,
+                          "why": "prune keeps the LONGER whitespace by len(): the blank line after "
+                                 "the older version's standalone comment loses against the newer "
+                                 "version's newline+indentation, the comment is glued to the entity"})
 
 
 def replay(chk, path):
